@@ -243,6 +243,7 @@ HAND = [
                                                                                   ("import", "cp"), ("def", "d", 4)]), (None, [("def", "a", 10)])], False), ("import", "cq")]),
     ("nested-three-deep-with-end", [("block", [((None, ("b", 0, None, True)), [("block", [((None, ("b", 1, None, True)), [("block", [((None, ("b", 2, None, True)), [("def", "a", 1)]), (None, [("def", "a", 2)])], True)]),
                                                                                           (None, [("def", "a", 3)])], True)]), ((None, ("i", 0, 2, True)), [("def", "a", 4)])], True), ("def", "b", ("v", 1))]),
+    ("more-than-ten-clause-keywords", [("def", "a", 0)] + [x for k in range(6) for x in (("block", [((None, ("b", k % 4, None, True)), [("def", "bd"[k % 2], 10 + k)]), (None, [("def", "a", 20 + k)])], True),)] + [("def", "d", ("v", 0))]),
     ("same-condition-twice", [("block", [((None, ("b", 0, None, True)), [("def", "a", 1)]), ((None, ("b", 0, None, True)), [("def", "a", 2)]), (None, [("def", "a", 3)])], True)]),
 ]
 
@@ -442,6 +443,9 @@ C16_TEXTS = [
     ("declared-in-a-group-without-value", "g\n  q int", False, []),
     ("constraint-violated-inside-unselected-clause-does-not-matter", '@case ("{?f0}")\n  n = {?v0}\n@end', ("or", ("not", f0), ("in", v0, [1, 2, 3])), []),
     ("unconstrained-modification", "w1 = {?w0}", True, [("w1", w0)]),
+    ("integer-options-in-another-unit-and-a-condition", 'x int = 2000 m\n  !options [2,3] km\n  !condition ("{?} >= 2500 m")', False, []),
+    ("integer-options-in-another-unit-condition-holds", 'x int = 2000 m\n  !options [2,3] km\n  !condition ("{?} < 2500 m && {?} > 100")', True, [("x", 2000)]),
+    ("integer-option-lines-in-another-unit-symbolic", 'x int = {?v0} m\n  = 2 km\n  = 3 km\n  !condition ("{?} < 2500 m")', ("eq", v0, 2000), [("x", v0)]),
     ("text-condition-not-equal", 'nm str = abc\n  !condition ("{?} != x")', True, [("nm", "abc")]),
     ("text-condition-not-equal-violated", 'nm str = abc\n  !condition ("{?} != abc")', False, []),
     ("text-condition-and-format", "nm str = abc\n  !condition (\"{?} != x\")\n  !format '[a-z]+'", True, [("nm", "abc")]),
@@ -486,6 +490,7 @@ C18_TEXTS = [
     ("zero-result", 'x float = ("{?a} - {?a}") cm\ny int = ("{?i} * 0")', False, [("x", 0), ("y", 0)], None),
     ("untyped-modification-by-expression-in-another-unit", 'x float = 1 m\nx = ("50 cm + {?b}") cm\ny float = 2 km\ny float = ("{?a} * 3") m', False, [("x", ("/", ("+", 50, wb), 100)), ("y", ("/", ("*", wa, 3), 1000))], None),
     ("untyped-modification-by-expression", 'x float = 1 cm\nx = ("{?a} + {?b}")\nz bool = true\nz = ("{?f} && {?g}")', False, [("x", ("+", ("*", wa, 100), wb)), ("z", ("and", bf, bg))], None),
+    ("result-requested-in-a-custom-unit", '$unit len = 2 m\nc float = ("{?a} + 1 m") [len]\nd float = ("3 [len] + {?b}") cm', False, [("c", ("/", ("+", wa, 1), 2)), ("d", ("+", 600, wb))], None),
     ("different-dimension-refused", 'x float = ("{?a} + {?k}") m', True, [], None),
     ("different-dimension-refused-2", 'x float = ("{?a} * {?b} - {?a}") m2', True, [], None),
     ("integer-nodes", 'x float = ("{?i} * {?j} + 1 cm") mm', False, [("x", ("+", ("*", vi, vj), 10))], None),
@@ -524,6 +529,7 @@ PRE17 = Prelude([
     ("grp", None), ("  p float = 2 s", "grp.p"), ("  q", None), ("    r int = 5", "grp.q.r"), ("  flag bool = false", "grp.flag"),
     ("sizes float[4] = [10,20,30,40] cm", "sizes"), ("names str[3] = [\"a\",\"b\",\"c\"]", "names"),
     ("opt int = 2", "opt"), ("  !options [1,2,3]", None),
+    ("pi float = 3.14159265358979 rad", "pi"), ("big float = 1234567.125", "big"), ("tiny float = 6.02214076e-23", "tiny"),
 ], {"a": ("real", "wa"), "b": ("real", "wb"), "i": ("int", "vi"), "f": ("bool", "bf"), "grp.p": ("real", "wp"), "grp.q.r": ("int", "vr"), "grp.flag": ("bool", "bflag")})
 wp, vr, bflag = S_("wp"), S_("vr"), S_("bflag")
 # (name, text, refused, [(node, value tree)], [(node, unit)], names added in order or None)
@@ -544,6 +550,8 @@ C17_TEXTS = [
     ("comparison-in-a-condition-does-not-alter-the-compared-nodes", '@case ("{?a} > {?b}")\n  x int = 1\n@end\ncopy float = {?a}\nthin float = {?a} mm\nbox\n  {?a}', False,
      [("copy", wa), ("thin", wa), ("a", wa), ("b", wb), ("box.a", wa)], [("copy", "m"), ("thin", "mm"), ("a", "m"), ("b", "cm"), ("box.a", "m")], None),
     ("option-added-below-an-imported-copy-stays-there", "box\n  {?opt}\n    = 7\nopt = {?i}", ("not", ("in", vi, [1, 2, 3])), [("opt", vi)], [], None),
+    ("every-digit-of-a-float-is-delivered", "angle float = {?pi}\nb2 float = {?big} m\nt2 float = {?tiny}\nbig = {?pi}", False,
+     [("angle", 3.14159265358979), ("b2", 1234567.125), ("t2", 6.02214076e-23), ("big", 3.14159265358979)], [("angle", "rad"), ("b2", "m")], ["angle", "b2", "t2"]),
     ("injection-selecting-no-node", "x float = {?nope}", True, [], [], None),
     ("injection-selecting-several-nodes", "x float = {?grp.*}", True, [], [], None),
     ("sliced-array-injection-then-import", "part float[:] = {?sizes}[1:3]\nbox\n  {?part}", False, [], [("part", "cm"), ("box.part", "cm")], ["part", "box.part"]),
@@ -744,6 +752,20 @@ run --fast
 """
   n int = 2
 ''', [("job.script", "str", "#!/bin/bash\n  # set up\nrun --fast\n\n# done", None), ("job.n", "int", 2, None)]),
+    ("block-text-ending-with-empty-lines", '''
+letter
+  body str = """
+Dear reader,
+
+this is a note.
+
+
+"""
+  blank str = """
+
+"""
+  n int = 1
+''', [("letter.body", "str", "Dear reader,\n\nthis is a note.\n\n", None), ("letter.blank", "str", "", None), ("letter.n", "int", 1, None)]),
     ("block-array-and-hash-inside-quotes", '''
 m int[2,2] = """
 [[1,2],
@@ -803,4 +825,35 @@ def _(c):
             return dict(args=[d], env=dict(want=want))
         c.scenario(name, pre)
     c.ensures("literal_view(result) == want", "one-parameter-per-node-with-path-type-value-and-unit-as-written")
+    c.no_raise()
+
+
+# ---- C19: the Bash export defines every element of a multi-dimensional array under the exported (renamed) symbol -------------------------
+EXB = "dip/config/export_bash.py::ExportConfigBash"
+
+
+@spec
+def bash_elements(text, sym):
+    """{index text: value text} of the lines  SYM[i,j]=v"""
+    out = {}
+    for l in text.split('\n'):
+        if l.startswith(sym + '[') and ']=' in l:
+            out[l[len(sym) + 1:l.index(']=')]] = l[l.index(']=') + 2:]
+    return out
+
+
+@contract(EXB + ".parse", ["C19"], name="ExportConfigBash.parse[multi-dimensional-arrays]")
+def _(c):
+    c.bound = "one text with a 2-D and a 3-D integer array in groups (names that are renamed), a 1-D array and scalars"
+
+    def pre(b):
+        d0 = b.new(DIPC, name="t")
+        b.call(b.getattr(d0, "add_string"), 'box\n  grid int[2,3] = [[1,2,3],[4,5,6]]\n  v int[2] = [7,8]\n  cube.c int[2,1,2] = [[[1,2]],[[3,4]]]\nn int = 4')
+        env = b.call(b.getattr(d0, "parse"))
+        return dict(args=[b.new(EXB, env)])
+    c.scenario("arrays-in-groups", pre)
+    c.ensures("bash_elements(result, 'BOX_GRID') == {'0,0': '1', '0,1': '2', '0,2': '3', '1,0': '4', '1,1': '5', '1,2': '6'}", "2-d-elements-under-the-exported-symbol-in-row-major-index-order")
+    c.ensures("bash_elements(result, 'BOX_CUBE_C') == {'0,0,0': '1', '0,0,1': '2', '1,0,0': '3', '1,0,1': '4'}", "3-d-elements-under-the-exported-symbol")
+    c.ensures("'declare -A BOX_GRID' in result.split('\\n') and 'export BOX_GRID' in result.split('\\n') and 'export N=4' in result.split('\\n')", "declared-and-exported-under-the-same-symbol")
+    c.ensures("all(['.' not in l.split('=')[0] for l in result.split('\\n')])", "no-line-assigns-to-an-unrenamed-dotted-name")
     c.no_raise()
